@@ -22,4 +22,6 @@ INVARIANT InvA
 INVARIANT InvAnn
 INVARIANT Exclusion
 INVARIANT LogHeaderOK
+INVARIANT InvLogNoTorn
+INVARIANT InvI
 CHECK_DEADLOCK FALSE
